@@ -571,6 +571,7 @@ def analyse(tr: Trace):
     # their bodies then run twice / are skipped) also ends the judged part for C05.
     cur = [0]
     stop = {"v2": None, "v5": None}
+    conc_stop = [None]     # event index at which C05 stopped judging because calls of a macro with blocks overlap
 
     def add(lst, sig, msg):
         which = "v2" if lst is v2 else "v5"
@@ -806,6 +807,7 @@ def analyse(tr: Trace):
                             # overlapping calls of a macro that contains blocks: the calls share (and reset) the block nodes;
                             # neither statement says how -- C05 judges the case up to here only, as C02 does for the body lines
                             stop["v5"] = ei
+                            conc_stop[0] = ei
                             info["classes"].add("c05-judged-until:macro-concurrent-call")
                     oc.add(node)
                 if kind in WS and node in prog.inner_ws:
@@ -957,7 +959,19 @@ def analyse(tr: Trace):
             # chain: every active block must be a lexical ancestor of the block that starts
             not_anc = [a for a in cx.active if a not in prog.anc[b]]
             if b in cx.active:
-                add(v5, "chain:block-started-while-active" + nia(b), "tick %d: %s started while it was already active" % (tick, txt(b)))
+                ovl = [a for a in prog.anc[b] if prog.kind(a) == "macro" and a in cx.concurrent]
+                if ovl and conc_stop[0] is not None and stop["v5"] == conc_stop[0] and not v5:
+                    # The consequences of overlapping calls of a macro with blocks are not judged (see `created` of Call macro),
+                    # but the restart of a block that is still active is itself against "active blocks form a single nested
+                    # chain": reported under its own narrow signature, as the one violation of the case.
+                    calls = sorted(c for c in prog.byid if prog.kind(c) == "callmacro" and prog.macro.get(prog.byid[c].payload) == ovl[0])
+                    v5.append(("chain:block-started-while-active:overlapping-macro-calls",
+                               "tick %d: %s (body of %s) started while it was already active; calls of the macro overlap (call lines %s): "
+                               "a later call reset the macro body while an earlier call was still inside the block"
+                               % (tick, txt(b), txt(ovl[0]), calls)))
+                    stop["v5"] = ei
+                else:
+                    add(v5, "chain:block-started-while-active" + nia(b), "tick %d: %s started while it was already active" % (tick, txt(b)))
             elif not_anc:
                 add(v5, "chain:start-beside-active-block" + nia(b), "tick %d: %s started while %s, which does not enclose it, is active"
                     % (tick, txt(b), [txt(a) for a in not_anc]))
@@ -1008,7 +1022,8 @@ def analyse(tr: Trace):
             elif e[1] == "block_end" and prog.block.get(e[2]) in cx2_active:
                 cx2_active.remove(prog.block[e[2]])
             ei += 1
-        if t["ev_end"] > len(tr.events) or (stop["v5"] is not None and t["ev_end"] > stop["v5"]):
+        lim5 = min([x for x in (stop["v5"], conc_stop[0]) if x is not None], default=None)
+        if t["ev_end"] > len(tr.events) or (lim5 is not None and t["ev_end"] > lim5):
             break
         cur[0] = t["ev_end"]
         want = prog.byid[cx2_active[-1]].payload if cx2_active else None
